@@ -346,17 +346,29 @@ def e2e_worker(job, acc: Acc):
         acc.violation(Violation(fam, t, case, want, got, what=f"changes={seq!r}"))
         return
     du = _find_decl_use(text)
-    if du is None:
-        return
-    (dl, dc), (ul, uc) = du
-    r = s.result("textDocument/definition", Server.tdpp(path, ul, uc))
-    exp = {"line": dl, "character": dc}
-    ok = isinstance(r, dict) and r.get("range", {}).get("start") == exp
-    acc.count("definition_checked")
-    if not ok:
-        acc.violation(Violation(fam, {"family": fam, "obs": "definition_coordinates", "ranged": incremental,
+    if du is not None:
+        (dl, dc), (ul, uc) = du
+        r = s.result("textDocument/definition", Server.tdpp(path, ul, uc))
+        exp = {"line": dl, "character": dc}
+        ok = isinstance(r, dict) and r.get("range", {}).get("start") == exp
+        acc.count("definition_checked")
+        if not ok:
+            acc.violation(Violation(fam, {"family": fam, "obs": "definition_coordinates", "ranged": incremental,
+                                          "ins_ends_with_break": False, "seam_crlf": False, "non_bmp": False},
+                                    case, exp, r, what=f"definition after {seq!r}"))
+    # the editor discards the unsaved buffer: didClose, and the document is opened again - the client now holds
+    # what is on disk, and so must the server
+    s.close(path)
+    s.open(path)
+    fobj = s.srv.workspace.get(path)
+    got2 = list(fobj.contents_split) if fobj is not None else None
+    want2 = refdoc.split_lines(E2E_DOC)
+    acc.count("reopened")
+    if got2 != want2:
+        acc.violation(Violation(fam, {"family": fam, "obs": "after_close_and_reopen", "ranged": incremental,
                                       "ins_ends_with_break": False, "seam_crlf": False, "non_bmp": False},
-                                case, exp, r, what=f"definition after {seq!r}"))
+                                {**case, "then": ["didClose", "didOpen"]}, want2, got2,
+                                what=f"after {seq!r}, didClose (nothing saved) and didOpen the server still holds the edited text"))
 
 
 def core_scratch():
